@@ -74,12 +74,15 @@ type Gen struct {
 	Tier    string
 
 	templates map[string][]string // ecosystem -> range templates
+	words     map[string][]string // ecosystem -> alphabetic tokens seen in its versions
 }
 
 func (g *Gen) initTemplates() {
 	g.templates = map[string][]string{}
+	g.words = map[string][]string{}
 	for n, ec := range g.class {
 		g.templates[n] = templatesOf(ec.ranges)
+		g.words[n] = wordsOf(ec.versions)
 	}
 }
 
@@ -245,6 +248,7 @@ func (g *Gen) Spec(seed uint64, index int) Spec {
 	nEco := 1 + p.n(3)
 	used := map[string]bool{}
 	fams := map[string]*family{}
+	sharedBase := ""
 	forced := g.names[index%len(g.names)]
 	for k := 0; k < nEco; k++ {
 		n := forced
@@ -263,7 +267,15 @@ func (g *Gen) Spec(seed uint64, index int) Spec {
 		e := EcoByName(n)
 		nv := p.rng(2, 12)
 		if p.chance(1, 2) {
-			f := g.family(p, n)
+			var f family
+			if sharedBase != "" && p.chance(1, 2) {
+				f = g.familyOf(p, n, sharedBase)
+			} else {
+				f = g.family(p, n)
+			}
+			if sharedBase == "" && len(f.cands) > 0 {
+				sharedBase = f.cands[0]
+			}
 			fams[n] = &f
 			ep.Versions = append(ep.Versions, f.vs...)
 			ep.Ranges = append(ep.Ranges, f.rs...)
@@ -352,13 +364,59 @@ func (g *Gen) Spec(seed uint64, index int) Spec {
 		}
 	}
 
+	// wide runs: many distinct constructor texts, each used again and again by
+	// every task (what a small hashed or direct-mapped cache needs to collide)
+	wide := p.chance(1, 6)
+	if wide {
+		for e, ep := range sp.Ecos {
+			ec := g.class[ep.Name]
+			for len(hots[e].v) < 40 {
+				s := pickS(p, ec.versions)
+				if p.chance(1, 4) {
+					s = mutate(p, s)
+				}
+				hots[e].v = append(hots[e].v, s)
+			}
+			for len(hots[e].r) < 24 && len(ec.ranges) > 0 {
+				hots[e].r = append(hots[e].r, pickS(p, ec.ranges))
+			}
+		}
+	}
+
+	// collide runs: a handful of constructor texts that share a hash bucket,
+	// parsed over and over by every task under a dense schedule
+	collide := !wide && len(sp.Ecos) > 0 && p.chance(1, 8)
+	if collide {
+		e := p.n(len(sp.Ecos))
+		if cs := g.colliders(p, sp.Ecos[e].Name, false, p.rng(2, 4)); len(cs) >= 2 {
+			hots[e].v = cs
+			// the colliding texts are also pool members, so that a value built
+			// from its bucket-mate's parts is observably different
+			sp.Ecos[e].Versions = append(cs, sp.Ecos[e].Versions...)
+			if len(sp.Ecos[e].Versions) > 14 {
+				sp.Ecos[e].Versions = sp.Ecos[e].Versions[:14]
+			}
+		}
+		if cs := g.colliders(p, sp.Ecos[e].Name, true, p.rng(2, 4)); len(cs) >= 2 {
+			hots[e].r = cs
+		}
+		wide = true // same constructor-heavy operation mix
+	}
+
 	// op mix (swarm): weights per kind, some kinds switched off per run
 	kinds := []string{KCmp, KCont, KVStr, KRStr, KName, KNewV, KNewR, KVers, KSort}
 	base := []int{6, 6, 1, 1, 1, 4, 3, 3, 2}
+	if wide {
+		base = []int{1, 1, 0, 0, 0, 12, 6, 2, 0}
+	}
 	w := make([]int, len(kinds))
 	tot := 0
 	for i := range kinds {
-		w[i] = base[i] * p.rng(0, 3)
+		lo := 0
+		if wide {
+			lo = 1
+		}
+		w[i] = base[i] * p.rng(lo, 3)
 		tot += w[i]
 	}
 	if tot == 0 {
@@ -432,7 +490,7 @@ func (g *Gen) Spec(seed uint64, index int) Spec {
 			case KNewV:
 				var s string
 				switch {
-				case p.chance(6, 10):
+				case p.chance(6, 10) || wide:
 					s = pickS(p, hots[e].v)
 				case p.chance(1, 2):
 					s = ep.Versions[p.n(len(ep.Versions))]
@@ -448,7 +506,7 @@ func (g *Gen) Spec(seed uint64, index int) Spec {
 				}
 				var s string
 				switch {
-				case p.chance(6, 10) && len(hots[e].r) > 0:
+				case (p.chance(6, 10) || wide) && len(hots[e].r) > 0:
 					s = pickS(p, hots[e].r)
 				case p.chance(1, 2) && len(ep.Ranges) > 0:
 					s = ep.Ranges[p.n(len(ep.Ranges))]
@@ -480,6 +538,9 @@ func (g *Gen) Spec(seed uint64, index int) Spec {
 	}
 	nt := p.rng(2, maxTasks)
 	maxOps := []int{4, 12, 40}[p.n(3)]
+	if wide {
+		maxOps = 40
+	}
 	total := 0
 	for t := 0; t < nt; t++ {
 		n := p.rng(1, maxOps)
@@ -510,20 +571,34 @@ func (g *Gen) Spec(seed uint64, index int) Spec {
 
 	// schedule
 	sc := simrt.Sched{Seed: p.next(), EstSteps: uint64(total)*250 + 100, Affine: p.chance(1, 2)}
-	switch x := p.n(10); {
-	case x < 4:
+	switch x := p.n(20); {
+	case x < 6:
 		sc.Policy = simrt.PolRandom
 		sc.Num = 1
-		sc.Den = []uint32{2000, 200, 20, 4, 1}[p.n(5)]
-	case x < 7:
+		sc.Den = []uint32{2000, 200, 20, 20, 4, 4, 4, 2, 2, 1}[p.n(10)]
+	case x < 11:
+		sc.Policy = simrt.PolNap
+		sc.Num = 1
+		sc.Den = []uint32{400, 100, 40, 20, 10, 5}[p.n(6)]
+	case x < 15:
 		sc.Policy = simrt.PolPCT
 		sc.D = p.rng(1, 3)
-	case x < 8:
+	case x < 17:
 		sc.Policy = simrt.PolRTC
 	default:
 		sc.Policy = simrt.PolOpB
 		sc.Num = 1
 		sc.Den = []uint32{1, 2, 4}[p.n(3)]
+	}
+	if collide {
+		sc.Num = 1
+		if p.chance(2, 3) {
+			sc.Policy = simrt.PolNap
+			sc.Den = []uint32{40, 20, 10}[p.n(3)]
+		} else {
+			sc.Policy = simrt.PolRandom
+			sc.Den = []uint32{4, 8, 20}[p.n(3)]
+		}
 	}
 	sp.Sched = sc
 	sp.Faults = simrt.Faults{
